@@ -55,6 +55,7 @@ func c03Envs(r *core.Rand) []map[string]any {
 		b["longrecs"] = long
 		b["mixedrecs"] = []any{map[string]any{"k": 2, "name": "b"}, nil, 5, "str", map[string]any{"k": 1, "name": "a"}, map[string]any{"name": "c"}, map[any]any{1: 2}, 2.5}
 		b["scalars"] = []any{7, "x", nil, 1.5, true}
+		b["ncols"], b["lim"], b["off"] = 1+k%3, k%4, (k/2)%3
 		// one struct type bound by value in some environments and by pointer in others (their method sets differ), two
 		// struct types that rename fields with liquid tags
 		if k%2 == 0 {
@@ -80,6 +81,14 @@ func c03Envs(r *core.Rand) []map[string]any {
 }
 
 var c03Fixed = []string{
+	// loop modifiers read from bindings that differ from one render to the next: what one render's cols, limit or offset
+	// was is nothing to the next render of the same template (also after a render that failed inside the loop)
+	"{% tablerow x in words cols: ncols %}{{ x }}{% endtablerow %}", "{% for x in spare limit: lim offset: off %}{{ x }}{% endfor %}|{% for x in words reversed limit: ncols %}{{ x }}{% endfor %}",
+	"{% tablerow x in spare cols: ncols limit: lim %}{{ x }}{% endtablerow %}|{% for i in (1..ncols) %}{% tablerow y in words cols: i %}{{ y }}{% endtablerow %}{% endfor %}",
+	// a loop that fails part-way for some bindings and not for others, with per-loop state (cycle) in use when it fails
+	"{% for x in spare %}{% cycle 'a', 'b', 'c' %}{{ x | divided_by: off }};{% endfor %}", "{% for x in spare %}{% cycle 'a', 'b' %}{% if forloop.index == lim %}{{ x | divided_by: 0 }}{% endif %}{{ x }};{% endfor %}",
+	"{% tablerow x in words cols: ncols %}{% cycle 'p', 'q', 'r' %}{% if forloop.index == lim %}{{ 1 | modulo: 0 }}{% endif %}{% endtablerow %}",
+	"{% tablerow x in spare cols: ncols %}{{ 6 | divided_by: off }}{% endtablerow %}", "{% for x in words limit: lim %}{% tablerow y in spare cols: ncols offset: off %}{{ y | divided_by: off }}{% endtablerow %}{% endfor %}",
 	// includes: of a file that includes itself (ends at the depth limit), of one that fails inside, of one that works
 	"{% include 'selfinc.html' %}", "a{% include 'failinc.html' %}b", "[{% include 'card.html' %}]{% for i in (1..2) %}{% include 'card.html' %}{% endfor %}", "{% for x in words %}{% include 'failinc.html' %}{% endfor %}",
 	"{% include 'card.html' %}|{% include 'no-such-file.html' %}", "{% capture c %}{% include 'selfinc.html' %}{% endcapture %}", "{% xcard recs[0] %}{% include 'card.html' %}",
